@@ -1,6 +1,9 @@
 package ir
 
-import "fmt"
+import (
+	"fmt"
+	"sort"
+)
 
 type lexicalScope struct {
 	reg    map[Name]taggedReg     // maps variable names to registers
@@ -15,6 +18,19 @@ func (s lexicalScope) getLabel(name Name) (label Label, line int, ok bool) {
 		line = ll.line
 	}
 	return
+}
+
+// sortedRegs returns the registers of the scope in a fixed order (by register
+// number), so that the code emitted when iterating over them does not depend on
+// Go's map iteration order: compiling the same source always gives the same
+// code.
+func (s lexicalScope) sortedRegs() []taggedReg {
+	regs := make([]taggedReg, 0, len(s.reg))
+	for _, tr := range s.reg {
+		regs = append(regs, tr)
+	}
+	sort.Slice(regs, func(i, j int) bool { return regs[i].reg < regs[j].reg })
+	return regs
 }
 
 type taggedReg struct {
